@@ -121,7 +121,7 @@ func (c *Conn) ReadPacket(p *pk.Packet) error {
 func (c *Conn) WritePacket(p pk.Packet) error {
 	ok := c.send.Push(p)
 	if !ok {
-		return errors.New("queue is full")
+		return errors.New("send queue is full or closed")
 	}
 	return nil
 }
